@@ -166,8 +166,7 @@ class SimProcessor(Processor):
             rows = list(source.engine.execute(source))
             out = w.table_from_rows(materialize_as or "xfer", source.columns, rows)
         else:
-            it = source.engine.execute(source)
-            out = it.materialized() if (materialize_as is not None or w.config.get("hook_mode") != "streaming") else it
+            out = source.engine.execute(source).materialized()
         w.fault.cross("hook_after")
         rec["completed"] = True
         return out
